@@ -73,8 +73,13 @@ def norm_code_repr(t):
 
 
 def norm_set_order(t):
+    # D6 is about *string* members (str hashing differs between hosts <= 3.10 and >= 3.11); the order of a set
+    # of ints, floats, None ... is the same on every host, so such sets are left alone
     def sub(m):
-        items = m.group(1).split(", ")
+        body = m.group(1)
+        if "'" not in body and '"' not in body:
+            return m.group(0)
+        items = body.split(", ")
         return "{" + ", ".join(sorted(items)) + "}"
 
     return _SET_LITERAL.sub(sub, t)
